@@ -15,17 +15,17 @@ CHECKS = {
  "C07": ("MC_Query", "derived operations vs the two primitive parsers, incl. strings that are both CURIE and URI (pool contains the URI prefix 'a:' and the CURIE prefix 'a')"),
  "C08": ("MC_Query", "whole strict x passthrough matrix of the 14 functions: mode laws on logged outcomes incl. exception family"),
  "C09": ("MC_Derive", "chain (both case modes, both orders) and get_subconverter (every prefix subset) over all pairs of base converters: union, grouping, priority, case-fold separation, restriction"),
- "C10": ("MC_Derive + MC_Remap", "frame condition as TLC action property; after EVERY step the projection of EVERY live converter is compared with its previous one (all six derivations, follow-up merging adds on the derived converter, long tlc -simulate behaviours deriving from derived converters)"),
+ "C10": ("MC_Derive + MC_Remap + MC_System", "frame condition as TLC action property (P_C10, and P_C10_sys for the steps that write and read files); after EVERY step the projection of EVERY live converter is compared with its previous one (all six derivations, follow-up merging adds on the derived converter, long tlc -simulate behaviours deriving from derived converters)"),
  "C11": ("MC_Remap", "every partial map over 4 names x every strict converter of <=2 records with <=1 synonym: documented errors, no prefix lost, URI side untouched"),
  "C12": ("MC_Derive", "every injective map (<=1 pair quick, <=2 thorough) for remap_uri_prefixes and rewire on one- and two-record converters; an Apalache check of the declarative statement over UNBOUNDED strings; rewire applied twice for idempotence"),
  "C13": ("MC_Build", "every small prefix map / priority map / reverse map / JSON-LD context / non-bijective map for upgrade_prefix_map, all dictionary orders; loading via object, str path and Path"),
- "C14": ("MC_IO", "every strict converter of <=2 records over hazard classes {plain, backslash, non-ASCII, space} with synonym and pattern, every format x flags, at the level of what the file denotes; the real writers/readers are run over hazard alphabets per format (EPM: arbitrary Unicode incl. control characters and quotes; JSON-LD; SHACL/TSV: printable without quote/angle brackets) and the read-back converter is compared with the predicted one"),
+ "C14": ("MC_IO + MC_System", "C14 along histories (spec/System.tla: files as state, write and read as separate steps, the file a snapshot of the source; P_C14_sys / P_Snapshot checked by TLC, behaviours with real files -- converters built incrementally, merged, chained, remapped, then written, changed and read back; twin converters written one after the other -- validated event by event); every strict converter of <=2 records over hazard classes {plain, backslash, non-ASCII, space} with synonym and pattern, every format x flags, at the level of what the file denotes; the real writers/readers are run over hazard alphabets per format (EPM: arbitrary Unicode incl. control characters and quotes; JSON-LD; SHACL/TSV: printable without quote/angle brackets) and the read-back converter is compared with the predicted one"),
  "C16": ("MC_Bulk", "the file helper as a step machine (read+convert all rows, then write): every table <=2 (thorough 3) rows x cell pool x header x column x strict/passthrough/ambiguous, fault at each row position (reachability checked); recorded executions (one event per cell conversion with the file's bytes compared at that moment) must be behaviours of the machine; data-frame variants element-wise"),
  "C15": ("MC_Refs", "every heap of <=2 (thorough 3) references built through every constructor over prefixes {'', a, A}, identifiers with and without separators, names, 1- and 2-character separators, with/without a context converter: parse-print inverse, split-at-first, equivalence/hash/order laws; replayed on the four classes incl. JSON, immutability, triples files (plain and gzip)"),
  "C17": ("MC_Web", "every request path <=7 (thorough 9) characters over {x, y, ':', '/'} against colon- and slash-delimited converters: framework routing (greedy prefix) + re-split at the first delimiter = expand_pair; each request is sent to the Flask and the FastAPI app in-process"),
  "C18": ("MC_Web", "every Accept header of <=3 (thorough 4) parts over supported/synonym/unsupported types x 3 q-values (16 optional-whitespace renderings when replayed); every URI <=5 characters against a converter with an IRI-invalid synonym; SPARQL answers for both directions, both VALUES placements, graph.query with/without the custom processor, Flask GET/POST"),
- "C19": ("MC_Discover", "every sequence (order, repetition) of <=2 URIs over {alnum, /, #, _, github head, issues} x delimiter lists x cutoffs x metaprefix x pre-existing converter; rotations/duplications give the same converter; calls replayed with list/set/generator/tuple iterables"),
- "C20": ("MC_W3C", "every string <=4 (thorough 5) over one representative per character class: operational recognisers (regex alternatives, full match) = declarative grammar; all of them replayed under two representative sets plus random longer strings"),
+ "C19": ("MC_Discover", "every sequence (order, repetition) of <=2 URIs over {alnum, /, #, _, github head, issues} x delimiter lists x cutoffs x metaprefix x pre-existing converter; rotations/duplications give the same converter; calls replayed with list/set/generator/tuple iterables; the discover calls of the repository's own tests are validated too"),
+ "C20": ("MC_W3C", "every string <=4 (thorough 5) over one representative per character class: operational recognisers (regex alternatives, full match) = declarative grammar; all of them replayed under two representative sets plus random longer strings; the calls the repository's own tests make are validated too"),
 }
 
 
